@@ -153,6 +153,12 @@ func cellEscapes(cell *ssa.Alloc) bool {
 				}
 			case *ssa.UnOp:
 			case *ssa.DebugRef:
+			case *ssa.FieldAddr:
+				// reading a field of the cell is fine; writing one or
+				// passing its address on is treated as an escape
+				if !readOnlyAddr(u) {
+					esc = true
+				}
 			case *ssa.MakeClosure:
 				for i, bnd := range u.Bindings {
 					if bnd == addr {
@@ -591,4 +597,25 @@ func LiteralFields(v ssa.Value) (map[string]ssa.Value, *ssa.Alloc, bool) {
 		}
 	}
 	return out, al, true
+}
+
+// readOnlyAddr: the derived address is only loaded from (possibly through
+// further field addresses).
+func readOnlyAddr(a ssa.Value) bool {
+	refs := a.Referrers()
+	if refs == nil {
+		return true
+	}
+	for _, r := range *refs {
+		switch u := r.(type) {
+		case *ssa.UnOp, *ssa.DebugRef:
+		case *ssa.FieldAddr:
+			if !readOnlyAddr(u) {
+				return false
+			}
+		default:
+			return false
+		}
+	}
+	return true
 }
